@@ -47,7 +47,7 @@ def _ids(idmap, xs):
 
 def _show_col(idmap, r):
     s = _ids(idmap, r.geoshapes)
-    return _tag(r) if not s else _tag(r) + ' ' + s
+    return (_tag(r) if not s else _tag(r) + ' ' + s) + U.stale(r)
 
 
 def _query(tok):
@@ -143,6 +143,8 @@ def impl(line):
         shapes2 = [t.build() for t in toks2]
         idmap.update({id(s): t.id for s, t in zip(shapes2, toks2)})
         col2 = _col(rest[0][0], shapes2)
+        U.warm(col)
+        U.warm(col2)
         b1, b2 = U.snapshot(col), U.snapshot(col2)
         try:
             ans = _show_col(idmap, col + col2)
@@ -150,6 +152,7 @@ def impl(line):
             ans = common.err_name(e)
         out = f'{ans} # {_ids(idmap, col.geoshapes)} # {_ids(idmap, col2.geoshapes)}'
         return out + (' MUTATED' if (b1, b2) != (U.snapshot(col), U.snapshot(col2)) else '')
+    U.warm(col)
     before = U.snapshot(col)
     try:
         ans = _do(op, col, shapes, idmap, rest, toks)
